@@ -211,14 +211,14 @@ def _satsolve_stdin_stdout(F, cmd='lingeling', verbose=0):
         if len(line) == 0:
             continue
 
-        if line[0] == 's':
-            if line.split()[1] == 'SATISFIABLE':
+        if line.split()[:1] == ['s']:
+            if line.split()[1:2] == ['SATISFIABLE']:
                 result = True
-            elif line.split()[1] == 'UNSATISFIABLE':
+            elif line.split()[1:2] == ['UNSATISFIABLE']:
                 result = False
             else:
                 result = None
-        if line[0] == 'v':
+        if line.split()[:1] == ['v']:
             witness += [
                 int(el) for el in line.split() if el != "v" and el != "0"
             ]
@@ -306,14 +306,14 @@ def _satsolve_filein_stdout(F, cmd='sat4j', verbose=0):
         if len(line) == 0:
             continue
 
-        if line[0] == 's':
-            if line.split()[1] == 'SATISFIABLE':
+        if line.split()[:1] == ['s']:
+            if line.split()[1:2] == ['SATISFIABLE']:
                 result = True
-            elif line.split()[1] == 'UNSATISFIABLE':
+            elif line.split()[1:2] == ['UNSATISFIABLE']:
                 result = False
             else:
                 result = None
-        if line[0] == 'v':
+        if line.split()[:1] == ['v']:
             witness += [
                 int(el) for el in line.split() if el != "v" and el != "0"
             ]
